@@ -28,6 +28,8 @@ func TestC17_Verify(t *testing.T) {
 		}
 		sk1, sk2 := decodeSK(g, x1), decodeSK(g, x2)
 		pk1, pk2 := sk1.PublicKey(), sk2.PublicKey()
+		pk1 = pkVariant(g, "pk1Via", blsKey{pk: pk1, x: x1})
+		pk2 = pkVariant(g, "pk2Via", blsKey{pk: pk2, x: x2})
 		data := g.Bytes("data", 0, 60)
 		h, hd := drawHasher(g, "hasher")
 		B := hashToG1(g, data, h)
@@ -118,6 +120,35 @@ func TestC17_Verify(t *testing.T) {
 				continue
 			}
 			check(pk1, c.b, pk2, p2, w, "first proof replaced by "+c.kind)
+		}
+		// both proofs changed together
+		{
+			seed := g.Bytes("pairTorsionSeed", 1, 4)
+			var T bls381.G1
+			switch g.Int("pairTorsionKind", 0, 2) {
+			case 0:
+				T, _ = bls381.G1SmallOrderPoint(3, seed)
+			case 1:
+				T, _ = bls381.G1SmallOrderPoint(11, seed)
+			default:
+				T = bls381.G1TorsionPoint(seed)
+			}
+			if !T.Inf {
+				// components outside G1 that cancel in p1 + p2 (or are equal): neither proof is a G1 element
+				check(pk1, bls381.G1Compress(P1.Add(T)), pk2, bls381.G1Compress(P2.Add(T.Neg())), false, "proofs p1+T and p2-T (opposite torsion components)")
+				check(pk1, bls381.G1Compress(P1.Add(T)), pk2, bls381.G1Compress(P2.Add(T)), false, "proofs p1+T and p2+T (equal torsion components)")
+				check(pk1, bls381.G1Compress(P1.Add(T)), pk2, bls381.G1Compress(P1.Add(T).Neg()), false, "proofs p1+T and -(p1+T)")
+				g.Class("pair:torsionBoth")
+			}
+			// G1-preserving joint transformations keep the verdict: (−p1, −p2) and (c·p1, c·p2)
+			check(pk1, bls381.G1Compress(P1.Neg()), pk2, bls381.G1Compress(P2.Neg()), want, "both proofs negated")
+			c := big.NewInt(int64(g.Int("pairScale", 2, 1<<16)))
+			check(pk1, bls381.G1Compress(P1.Mul(c)), pk2, bls381.G1Compress(P2.Mul(c)), want, "both proofs scaled by the same factor")
+			// negating one key and its own proof... e(p1, -pk2) = e(-p1, pk2): verdict for (pk1, -p1, -pk2, p2) is unchanged
+			if x2.Sign() != 0 {
+				npk2 := decodeSK(g, new(big.Int).Sub(blsR, x2)).PublicKey()
+				check(pk1, bls381.G1Compress(P1.Neg()), npk2, p2, want, "first proof and second key negated")
+			}
 		}
 		// identity keys reject
 		for i, idk := range identityKeys(g, blsKey{x: x1, pk: pk1}) {
